@@ -286,6 +286,29 @@ func mutants(m *msggen.Message, r *rand.Rand, perKind int) []mutant {
 			out = append(out, mutant{kind: "header-after-body", fields: f, mustWhen: func(s settings) bool { return s.CheckFieldsOutOfOrder }, accept: []pair{{14, p.node.Tag}}})
 		}
 	}
+	// 8b. header field after the trailer has begun (with or without a body in between)
+	{
+		c = nil
+		for _, p := range plain {
+			if p.top && p.sect == 0 && quickfix.Tag(p.node.Tag).IsHeader() {
+				c = append(c, p)
+			}
+		}
+		hasSig := false
+		for _, f := range fs {
+			if f.Tag == 93 || f.Tag == 89 {
+				hasSig = true
+			}
+		}
+		for _, p := range pick(c) {
+			f := append(clone(fs[:p.idx]), fs[p.idx+1:]...)
+			if !hasSig {
+				f = append(f, fixwire.Field{Tag: 93, Val: "3"}, fixwire.Field{Tag: 89, Val: "abc"})
+			}
+			f = append(f, fs[p.idx])
+			out = append(out, mutant{kind: "header-after-trailer", fields: f, mustWhen: func(s settings) bool { return s.CheckFieldsOutOfOrder }, accept: []pair{{14, p.node.Tag}}})
+		}
+	}
 	// 9. group count off by one
 	c = nil
 	for _, p := range ps {
